@@ -49,7 +49,7 @@ func c01GenOp(t *rapid.T, first bool, ver int) *world.Op {
 
 // c01GenFault draws a fault plan for op on world w (positions from the real number of calls the operation makes).
 func c01GenFault(t *rapid.T, w *world.World, op *world.Op, allowCrash bool) world.Fault {
-	kinds := []string{"none", "none", "kube", "kube", "wait", "store", "store"}
+	kinds := []string{"none", "none", "kube", "kube", "wait", "store", "store", "store-read"}
 	if allowCrash {
 		kinds = append(kinds, "crash", "crash")
 	}
@@ -59,6 +59,28 @@ func c01GenFault(t *rapid.T, w *world.World, op *world.Op, allowCrash bool) worl
 	}
 	pos := rapid.IntRange(0, 999).Draw(t, "faultPos")
 	dry := w.DryCount(op)
+	if kind == "store-read" {
+		// a storage READ fails (on the Kubernetes backends reads are cluster calls too): position among all storage calls
+		// half of the time aimed at one of the "which revision is deployed" lookups (the ones pruning and the
+		// supersede step depend on), otherwise anywhere
+		total := 0
+		var deployedLookups []int
+		for _, e := range dry.Events {
+			if e.Layer == "store" {
+				if e.Verb == "Query" && strings.Contains(e.Key, "deployed") {
+					deployedLookups = append(deployedLookups, total)
+				}
+				total++
+			}
+		}
+		if total == 0 {
+			return world.Fault{}
+		}
+		if len(deployedLookups) > 0 && rapid.Bool().Draw(t, "aimAtDeployedLookup") {
+			return world.Fault{Kind: "store", K: deployedLookups[pos*len(deployedLookups)/1000], StoreReads: true}
+		}
+		return world.Fault{Kind: "store", K: pos * total / 1000, StoreReads: true}
+	}
 	n := map[string]int{"kube": dry.KubeN, "wait": dry.WaitN, "store": dry.StoreN, "crash": dry.ExtN}[kind]
 	if n == 0 {
 		return world.Fault{}
@@ -232,6 +254,15 @@ func (j *c01Judge) judge(op *world.Op, res *world.Result) (cut bool) {
 		case "uninstall":
 			if !op.KeepHistory && len(post) != 0 {
 				return j.fail("C01:I4-uninstall-success-but-history-remains/"+ctxSig, fmt.Sprintf("pre %s post %s", world.HistString(pre), world.HistString(post)))
+			}
+		}
+	}
+	// I5 (part that holds even when storage calls fail): pruning never removes the currently deployed revision
+	if (op.Kind == "upgrade" || op.Kind == "rollback") && storeFault && !dry && op.MaxHistory > 0 {
+		postSet := revSet(post)
+		for _, d := range deployedRevs(pre) {
+			if _, ok := postSet[d]; !ok {
+				return j.fail("C01:I5-pruned-the-deployed-revision/"+ctxSig, fmt.Sprintf("limit %d pre %s post %s", op.MaxHistory, world.HistString(pre), world.HistString(post)))
 			}
 		}
 	}
